@@ -5,7 +5,7 @@ import glob, json, os, subprocess, sys
 VERIF = os.path.dirname(os.path.dirname(os.path.abspath(__file__)))
 pat = sys.argv[1] if len(sys.argv) > 1 else ""
 out = {}
-for d in sorted(glob.glob(os.path.join(VERIF, "seeded", "C*"))):
+for d in sorted(x for x in glob.glob(os.path.join(VERIF, "seeded", "C*")) if os.path.isdir(x)):
     sid = os.path.basename(d)
     if pat not in sid:
         continue
